@@ -466,11 +466,21 @@ def rebuild_backup(ctx, s):
                 r = info["args"][0]
                 if r[0] == "ref" and r[1][0] == "local":
                     bak_locals.add(r[1][1])
+    from ..srules import deep_values
     for b, info in ren:
         dst = info["args"][1]
         ok = dst[0] == "ref" and dst[1][0] == "local" and dst[1][1] in bak_locals
-        s.add("S-EFFECT", rb, "backup-rename", s.show(info["args"][0], rb)[:40], info["sp"], PROVED if ok else VIOLATION,
-              "the old file is renamed to a *.bak path" if ok else "an old file is renamed to something other than its .bak path", b)
+        names = []
+        for v in [dst] + [p for p in info["pre"][1:2] if p is not None]:
+            for x in deep_values(an, v, 4):
+                names += [y[1] for y in find_values(x, lambda y: y[0] == "bytes")]
+        if any(n.endswith(b".bak") for n in names):
+            ok = True
+        verdict = PROVED if ok else (VIOLATION if names else UNDECIDED)
+        s.add("S-EFFECT", rb, "backup-rename", s.show(info["args"][0], rb)[:40], info["sp"], verdict,
+              "the old file is renamed to a *.bak path" if ok else
+              ("an old file is renamed to something other than its .bak path" if names else
+               "how the rename target is built was not recognised: not decided"), b)
     scope = ctx.G.reachable([rb.path], within=lambda p: p.startswith("pocket_db::"))
     rm = [(p, c) for p, bi, c, t in ctx.G.reaches_external([rb.path], lambda c: c.startswith("std::fs::") and
                                                            c.rsplit("::", 1)[-1] in ("remove_file", "remove_dir", "remove_dir_all"),
